@@ -154,4 +154,28 @@ Section Exit.
     assert (Hq' : q' <= q + 1) by (unfold q'; destruct (_ <=? _); lia).
     rewrite add64_small by (unfold two64; lia). reflexivity.
   Qed.
+
+  Variable f : fork.
+  Theorem process_voluntary_exit_refines st epc sve :
+    cfg_sane E -> epc_ok E st epc -> st_bounds E st -> SHARD_COMMITTEE_PERIOD c <= 2 ^ 40 ->
+    process_voluntary_exit_impl E f epc st sve
+    = match process_voluntary_exit E f st sve with Some s => Ok s | None => Err end.
+  Proof.
+    intros Hc Hepc Hb Hscp. unfold process_voluntary_exit_impl, process_voluntary_exit. cbv zeta. fold c.
+    rewrite (eo_epoch E st epc Hepc), (eo_pubkey_of E st epc Hepc).
+    destruct (N.ltb_spec (vuint (vfield (vfield sve 0) 1)) (N.of_nat (length (validators st)))) as [Hlt|Hge]; cbn [check bind].
+    2:{ apply nthN_None_ge in Hge. rewrite Hge. reflexivity. }
+    destruct (nthN (validators st) (vuint (vfield (vfield sve 0) 1))) as [v|]; [|reflexivity]. cbn [of_opt bind option_map].
+    destruct (is_active_validator v (get_current_epoch E st)) eqn:Hact; cbn [check bind]; [|reflexivity].
+    destruct (v_exit_epoch v =? FAR_FUTURE_EPOCH); cbn [check bind]; [|reflexivity].
+    rewrite <- N.leb_antisym.
+    destruct (vuint (vfield (vfield sve 0) 0) <=? get_current_epoch E st); cbn [check bind]; [|reflexivity].
+    (* the addition cannot wrap: the validator is active, so activation_epoch <= current epoch < 2^40 *)
+    unfold is_active_validator in Hact. apply andb_true_iff in Hact. destruct Hact as [Ha _]. apply N.leb_le in Ha.
+    pose proof (current_epoch_lt st Hc Hb) as Hce. change (2 ^ 40) with 1099511627776 in *.
+    rewrite add64_small by (unfold two64; lia). rewrite <- N.leb_antisym.
+    destruct (v_activation_epoch v + SHARD_COMMITTEE_PERIOD c <=? get_current_epoch E st); cbn [check bind]; [|reflexivity].
+    destruct (bls_verify E _ _ _); cbn [check bind]; [|reflexivity].
+    apply initiate_validator_exit_refines; assumption.
+  Qed.
 End Exit.
